@@ -12,10 +12,10 @@ RULE = ('exact: random/boundary graphs n<=8 x harness tables (duration per (node
         'occurrence); continuous values => distinct event times, verified) x initial sets x tmin in {0,-2,1.5} x three horizons x both entry forms x '
         'both return modes, reinfection-heavy tables included.  law: exponential rules on graphs n<=4, state vector at T vs 2^N master equation. '
         'Non-trivial = at least one reinfection or >=3 infections; distinct = (kind, graph iso key, attempts profile, horizon class).')
-ASSUMPTIONS = ['user delay lists are ascending and shorter than the duration (documented requirement)', 'event times are distinct (checked per case; cases with ties are discarded and counted)']
+ASSUMPTIONS = ['user delay lists are ascending; three profiles keep them shorter than the duration (documented use), the profile late also lists attempts after the recovery of the source (the statement says: for every listed delay)', 'event times are distinct (checked per case; cases with ties are discarded and counted)']
 BUDGET = {'quick': 150, 'thorough': 1200}
 CHUNK = {'quick': 30, 'thorough': 150}
-REQUIRED = ['histories_compared', 'reinfections_seen', 'blocked_attempts_seen', 'user_fn_args_checked', 'law_tests']
+REQUIRED = ['histories_compared', 'reinfections_seen', 'blocked_attempts_seen', 'user_fn_args_checked', 'law_tests', 'late_attempt_cases']
 INF = float('inf')
 
 
@@ -32,7 +32,7 @@ def gen_cases(tier, seed):
         I0 = r.sample(range(nn), r.randint(1, min(nn, 3)))
         tmin = r.choice([0, -2, 1.5])
         out.append({'kind': 'exact', 'graph': desc, 'I0': I0, 'tmin': tmin, 'tmax': tmin + r.choice([1.0, 3.0, 7.0]),
-                    'profile': r.choice(['sparse', 'dense', 'heavy']), 'form': r.choice(['sep', 'joint']), 'full': r.random() < 0.6, 'seed': cs})
+                    'profile': r.choice(['sparse', 'dense', 'heavy', 'late']), 'form': r.choice(['sep', 'joint']), 'full': r.random() < 0.6, 'seed': cs})
     runs = 20000 if q else 250000
     ncfg = 4 if q else 12
     small = [g for g in gen.atlas(4, 2) if g['edges']]
@@ -61,6 +61,10 @@ def table_delays(seed, profile, i, j, occ, dur):
         k = 0 if u < 0.4 else (1 if u < 0.8 else 2)
     elif profile == 'dense':
         k = 1 + int(u * 3)
+    elif profile == 'late':
+        # "for every listed delay": attempts listed after the node's own recovery are still attempts of the reference semantics
+        k = 1 + int(u * 3)
+        return sorted(dur * (0.02 + 2.4 * _u(seed, 'v', i, j, occ, m)) for m in range(k))
     else:
         k = 3
     return sorted(dur * (0.02 + 0.96 * _u(seed, 'v', i, j, occ, m)) for m in range(k))
@@ -171,6 +175,8 @@ def run_exact(case, res):
         viol(res, 'fast_nonMarkov_SIS|delay_function_receives_the_infection_duration', {'node,nbr,passed,drawn': argbad[0]})
         return
     bump(res, 'histories_compared')
+    if profile == 'late':
+        bump(res, 'late_attempt_cases')
     reinf = sum(1 for k in occs if k >= 2)
     bump(res, 'reinfections_seen', reinf)
     bump(res, 'blocked_attempts_seen', blocked)
